@@ -22,9 +22,15 @@ fn types_of(rules: &[pest_meta::ast::Rule]) -> Types {
     rules.iter().map(|r| (r.name.clone(), r.ty)).collect()
 }
 
-fn check_case(rep: &mut Report, text: &str, vm: &pest_vm::Vm, types: &Types, rule: &str, input: &str) {
+fn check_case(rep: &mut Report, text: &str, vm: &pest_vm::Vm, types: &Types, rule: &str, input: &str, detail: bool) {
+    // the process-wide "detailed errors" switch must not change what is reported (one shard = one thread)
+    pest::set_error_detail(detail);
     let run = run_vm(vm, rule, input, 1_000_000, true);
+    pest::set_error_detail(false);
     rep.count("evaluations");
+    if detail {
+        rep.count("evaluations_with_error_detail_on");
+    }
     match run.outcome {
         Outcome::NoMatch => {}
         Outcome::Budget => {
@@ -65,7 +71,7 @@ fn check_case(rep: &mut Report, text: &str, vm: &pest_vm::Vm, types: &Types, rul
     let negs = acts.iter().filter(|a| a.qualifies() == Some(true)).count();
     if !problems.is_empty() {
         let log: Vec<String> = acts.iter().map(|a| format!("{}@{} ok={} la={} at={}", a.rule, a.start, a.ok, a.lookahead, a.atomicity)).take(60).collect();
-        rep.violation(json!({"property":"C08","config":config_name(),"backend":"vm","grammar":text,"rule":rule,"input":input,
+        rep.violation(json!({"property":"C08","config":config_name(),"backend":"vm","grammar":text,"rule":rule,"input":input,"error_detail":detail,
             "expected": problems, "observed": {"pos": err.pos, "positives": err.positives, "negatives": err.negatives}, "activations_in_exit_order": log}));
         return;
     }
@@ -95,7 +101,7 @@ pub fn run(args: &Args) {
         let w = if v["witness"].is_object() { v["witness"].clone() } else { v.clone() };
         if let Ok((ast, opt)) = read_grammar(w["grammar"].as_str().unwrap()) {
             let vm = pest_vm::Vm::new(opt);
-            check_case(&mut rep, w["grammar"].as_str().unwrap(), &vm, &types_of(&ast), w["rule"].as_str().unwrap(), w["input"].as_str().unwrap());
+            check_case(&mut rep, w["grammar"].as_str().unwrap(), &vm, &types_of(&ast), w["rule"].as_str().unwrap(), w["input"].as_str().unwrap(), w["error_detail"].as_bool().unwrap_or(false));
         }
         rep.finish(args);
         return;
@@ -121,6 +127,7 @@ pub fn run(args: &Args) {
         let (inputs, _, _) = vmon::inputs::inputs_for(&ast, &mut grng, 12, 2, 60);
         let vm = pest_vm::Vm::new(optimized);
         let types = types_of(&ast);
+        let detail = gi % 4 == 3;
         rep.count("grammars_used");
         for r in &ast {
             for input in &inputs {
@@ -131,7 +138,7 @@ pub fn run(args: &Args) {
                     continue;
                 }
                 rep.journal(|| json!({"grammar": text, "rule": r.name, "input": input}));
-                check_case(&mut rep, &text, &vm, &types, &r.name, input);
+                check_case(&mut rep, &text, &vm, &types, &r.name, input, detail);
             }
         }
     }
